@@ -27,6 +27,8 @@ pub enum Pat {
     Single,
     /// Exactly one bit clear (in the middle).
     AllButOne,
+    /// Bit i is set iff i is a multiple of x (cheap to expand at any length).
+    Every(u32),
 }
 
 #[derive(Clone, Debug, Serialize, Deserialize, PartialEq, Eq)]
@@ -90,6 +92,12 @@ impl Content {
                 out.resize(n, 0);
             },
             Pat::AllButOne => out.resize(n, u64::MAX),
+            Pat::Every(k) => {
+                let k = k.max(1) as usize;
+                out.resize(n, 0);
+                if k >= 64 { let mut p = 0usize; while p < n * 64 { out[p / 64] |= 1u64 << (p % 64); p += k; } }
+                else { for p in (0..n * 64).step_by(k) { out[p / 64] |= 1u64 << (p % 64); } }
+            },
         }
         out
     }
@@ -157,7 +165,17 @@ impl Content {
         let w = self.words_n((self.len + 7) / 8 + 1);
         let mut s = String::with_capacity(self.len);
         let mut i = 0usize;
+        // Strings that reach 2^25 bytes (where piecewise loaders and validators start a new piece) carry a
+        // four-byte character across every multiple of 2^25: one byte before it, three after.
+        const PIECE: usize = 1 << 25;
         while s.len() < self.len {
+            if self.len > PIECE {
+                let next = (s.len() / PIECE + 1) * PIECE;
+                if next + 3 <= self.len && s.len() + 8 >= next {
+                    while s.len() + 1 < next { s.push('x'); }
+                    if s.len() + 1 == next { s.push_str("\u{1F600}"); i += 1; continue; }
+                }
+            }
             let pick = match self.pat {
                 Pat::Zero => 0,
                 Pat::Ones => 9,
